@@ -79,7 +79,7 @@ Definition store_extends_b (s s' : store) : bool :=
   Nat.leb (List.length (closures s)) (List.length (closures s')).
 
 (** adversarial environment: [t] a table whose every metamethod is an external function,
-    [n] a number, [s] a string, [u] unbound (nil global); [ext_f] an external function whose
+    [n] a number, [s] a string, [q] a number that is NaN, [u] unbound (nil global); [ext_f] an external function whose
     results come from the oracle stream; varargs = (7, nil, "v") *)
 Definition adv_oracle : list (list oval) :=
   [ [ONum 4607182418800017408; ONum 4611686018427387904; ONum 4613937818241073152];
@@ -91,7 +91,8 @@ Definition adv_setup : M env :=
   ct <- new_cell t ;;
   cn <- new_cell (VNum (of_Z 3)) ;;
   cs <- new_cell (VStr (of_string "str")) ;;
-  ret [ (of_string "t", ct); (of_string "n", cn); (of_string "s", cs) ].
+  cq <- new_cell (VNum S754_nan) ;;
+  ret [ (of_string "t", ct); (of_string "n", cn); (of_string "s", cs); (of_string "q", cq) ].
 
 Definition adv_va : list value := [VNum (of_Z 7); VNil; VStr [118]].
 
